@@ -34,6 +34,7 @@ func C11(ctx *Ctx) {
 	R.Rule("attach-model", "every Attach call of CreateEmulator has constant, 16-byte- and page-aligned bounds and a backend that is a RAM over a constant sub-slice of ROM/SRAM/WRAM or the I/O stub; CreateEmulator is interpretable along one path")
 	R.Rule("agree", "for every 8 KiB page backed by ROM/SRAM/WRAM in the emulator and mapped by the LoROM mapper: same memory class and same linear position; a page the emulator backs with anything else (I/O stub) is one the mapper leaves unmapped")
 	R.Rule("ram", "memory.RAM.Read/Write access data[address-offset], the same cell for the same address")
+	R.Rule("mirrors", "where the emulator backs a page with ROM/SRAM/WRAM, the pages the mapper sends to the same position and the property names as mirrors (the other half of the bank space, bank bit 7; the WRAM window in the low 8 KiB of system banks) are backed too")
 	R.Rule("io-stub", "a backend that is not one of the System's memories (the I/O stub) serves every address it is attached for without an out-of-range index")
 	sysT := ctx.Prog.Pkg("emulator").Type("System")
 	fn := ctx.Prog.Method("emulator", "System", "CreateEmulator")
@@ -205,6 +206,52 @@ func C11(ctx *Ctx) {
 	}
 	if len(bad) == 0 {
 		R.Pass("agree", "all-pages", pos, fmt.Sprintf("%d pages backed by ROM/SRAM/WRAM and mapped by LoROM: same class, same linear position", nBoth))
+	}
+	// ---- mirrors: a page the mapper sends to the same pak position as a page the emulator backs with memory
+	// is a mirror of it; the mirrors the property names (bank bit 7; the low 8 KiB of the system banks) must be
+	// backed as well (that they are then the same storage is `agree`)
+	byPak := map[uint32][]int{}
+	for p := 0; p < nPages; p++ {
+		if ms := sums.B2P[p]; ms.Kind == SumAffine {
+			byPak[ms.Base] = append(byPak[ms.Base], p)
+		}
+	}
+	var missing []int
+	whyM := map[int]string{}
+	nMirror := 0
+	for p := 0; p < nPages; p++ {
+		st := pages[p]
+		if st == nil || st.Kind != "RAM" || sums.B2P[p].Kind != SumAffine {
+			continue
+		}
+		for _, q := range byPak[sums.B2P[p].Base] {
+			if q == p {
+				continue
+			}
+			named := q == p^(0x800000>>pageBits) || (pakInputClass(sums.B2P[p].Base) == "WRAM" && uint32(q<<pageBits)&0xFFFF < 0x2000 && uint32(q<<pageBits)>>16&0x7F < 0x40)
+			if !named {
+				continue
+			}
+			nMirror++
+			if pages[q] == nil {
+				missing = append(missing, q)
+				whyM[q] = fmt.Sprintf("bus %s is a mirror of %s for the mapper (both $%06X) but nothing is attached there: an access fails instead of reaching the same storage", pageRange(q), pageRange(p), sums.B2P[p].Base)
+			}
+		}
+	}
+	sort.Ints(missing)
+	var uniq []int
+	for i, q := range missing {
+		if i == 0 || q != missing[i-1] {
+			uniq = append(uniq, q)
+		}
+	}
+	R.Count("mirror-pairs", nMirror)
+	for _, r := range pageRuns(uniq) {
+		R.Fail("mirrors", runKey(r), pos, whyM[r[0]])
+	}
+	if len(uniq) == 0 {
+		R.Pass("mirrors", "all", pos, fmt.Sprintf("%d (page, mirror) pairs: every named mirror of a backed page is backed", nMirror))
 	}
 	// ---- memory.RAM
 	checkIOStubs(ctx, sites)
